@@ -42,8 +42,9 @@ def _some0(rng, lo, hi, kmax):
     return sorted(set(rng.randint(lo, hi) for _ in range(rng.randint(1, kmax))))
 
 
-def gen_rule(rng, dtstart, freq=None, big_times=False):
-    """a well-formed rule of the supported language fitting the DTSTART's value type"""
+def gen_rule(rng, dtstart, freq=None, big_times=False, numbered_limit=0.0):
+    """a well-formed rule of the supported language fitting the DTSTART's value type; numbered_limit: probability that BYDAY
+    carries ordinals where it acts as a limit (next to BYMONTHDAY / BYYEARDAY)"""
     freq = freq or rng.choice(FREQS)
     allday = dtstart[3] is None
     if allday and freq in ("HOURLY", "MINUTELY", "SECONDLY"):
@@ -63,7 +64,7 @@ def gen_rule(rng, dtstart, freq=None, big_times=False):
         if "wk" in shape:
             r.byweekno = _some(rng, 1, 53, 3, neg=True)
         if "dow" in shape:
-            plain = shape in ("wk+dow", "md+dow", "yd+dow", "mon+md+dow") or p() < 0.4
+            plain = shape == "wk+dow" or (shape in ("md+dow", "yd+dow", "mon+md+dow") and not p() < numbered_limit) or p() < 0.4
             omax = 5 if "mon" in shape else 53
             r.byday = []
             for _ in range(rng.randint(1, 3)):
@@ -78,7 +79,7 @@ def gen_rule(rng, dtstart, freq=None, big_times=False):
         if "md" in shape:
             r.bymonthday = _some(rng, 1, 31, 4, neg=True)
         if "dow" in shape:
-            plain = shape == "md+dow" or p() < 0.4
+            plain = (shape == "md+dow" and not p() < numbered_limit) or p() < 0.4
             r.byday = []
             for _ in range(rng.randint(1, 3)):
                 o = 0 if plain else rng.choice([1, 2, 3, 4, 5, -1, -2, -5])
